@@ -357,6 +357,57 @@ Proof.
     + clear - HS1s HR2 Ht3. unfold Ran, Same in *. repeat match goal with H: _ /\ _ |- _ => destruct H end. rewrite app_length. lia.
 Qed.
 
+(* ---- the same for any mixture of external declarations that are parsed back one by one ---- *)
+Definition ExtS (kvs: list (kind * str)) (X: value unit) : Prop :=
+  (exists k v r, kvs = (k, v) :: r) /\
+  forall (s: pstate) le rest, Spell le kvs -> Up s (le ++ rest) -> NoTD (scopes P s) ->
+  exists f0 Ns s', (forall fu, f0 <= fu -> p_external_declaration P fu s = Ok (Ns, s')) /\ Up s' rest /\
+    map (@strip (coord P)) Ns = [X] /\ Ran P s s' (length le).
+
+Lemma tu_run_g : forall eds, Forall (fun e => ExtS (fst e) (snd e)) eds ->
+  forall (s: pstate) le, Spell le (concat (map fst eds)) -> UpEnd P s le -> NoTD (scopes P s) ->
+  exists f0 Ns s', (forall fu, f0 <= fu -> p_translation_unit P fu s = Ok (Ns, s')) /\ AtEOF P s' /\
+    map (@strip (coord P)) Ns = map snd eds /\
+    idx P s' = idx P s + length le /\ N.to_nat (ticks P s') <= N.to_nat (ticks P s) + 3 * length le.
+Proof.
+  induction eds as [|[kvs X] eds IH]; intros HF s le HS HE HN.
+  - apply (RoundTrip.Spell_nil_inv P) in HS. subst le. destruct (peek_end P s HE) as [s1 [H1 [HA1 _]]].
+    assert (Hst: idx P s1 = idx P s /\ ticks P s1 = ticks P s).
+    { clear - H1. unfold peek, peek_k, bind, fill in H1. cbn [fill_aux] in H1. unfold bind, get in H1.
+      destruct (Nat.ltb (length (after P s)) 1).
+      - unfold deliver1 in H1. destruct (raw P s) as [|[k v p fa|m p f|] r].
+        + cbn [after] in H1. destruct (last_is_none P (after P s ++ [None])); unfold ret in H1; cbn [after] in H1;
+            destruct (nth_error (after P s ++ [None]) (Nat.pred 1)); inversion H1; subst; split; reflexivity.
+        + destruct (kind_eqb k K_LBRACE); [|destruct (kind_eqb k K_RBRACE); [destruct (scopes P s) as [|? [|? ?]]; try discriminate H1|]];
+            cbn [after] in H1; match type of H1 with context [last_is_none P ?l] => destruct (last_is_none P l) end; unfold ret in H1; cbn [after] in H1;
+            match type of H1 with context [nth_error ?l ?n] => destruct (nth_error l n) end; inversion H1; subst; split; reflexivity.
+        + discriminate H1.
+        + discriminate H1.
+      - unfold ret in H1. destruct (nth_error (after P s) (Nat.pred 1)); inversion H1; subst; split; reflexivity. }
+    destruct Hst as [Hi1 Ht1].
+    exists 1, [], s1. split; [|split; [exact HA1|split; [reflexivity|split; [cbn [length]; lia|cbn [length]; rewrite Ht1; lia]]]].
+    intros fu Hfu. destruct fu as [|fu]; [lia|]. rewrite tu_eq. unfold bind at 1. rewrite H1. reflexivity.
+  - inversion HF as [|x y Hfd HF']; subst x y. cbn [map concat] in HS.
+    destruct (RoundTrip.Spell_app_inv P _ _ _ HS) as [l1 [lr [-> [HS1 HSr]]]].
+    cbn [fst snd] in Hfd, HS1. destruct Hfd as [[k [v [r Ek]]] Hrun]. pose proof HS1 as HS1'. rewrite Ek in HS1'.
+    destruct (RoundTrip.Spell_cons_inv P _ _ _ _ HS1') as [t [tl [El [_ [_ _]]]]].
+    pose proof (UpEnd_Up P _ _ HE) as HU. rewrite El in HU. cbn [app] in HU.
+    destruct (peek_up P s t _ HU) as [s1 [H1 [HU1 HS1s]]].
+    change (t :: tl ++ lr) with ((t :: tl) ++ lr) in HU1. rewrite <- El in HU1.
+    assert (HN1: NoTD (scopes P s1)). { clear - HN HS1s. unfold Same, SC in *. tauto. }
+    destruct (Hrun s1 l1 lr HS1 HU1 HN1) as [f1 [Ns1 [s2 [H2 [HU2 [HNs1 HR2]]]]]].
+    assert (HE2: UpEnd P s2 lr).
+    { apply (UpEnd_ran P s s2 l1 lr HE HU2); clear - HS1s HR2; unfold Ran, Same, SC in *; repeat match goal with H: _ /\ _ |- _ => destruct H end; lia. }
+    assert (HN2: NoTD (scopes P s2)). { clear - HN1 HR2. unfold Ran, SC in *. tauto. }
+    destruct (IH HF' s2 lr HSr HE2 HN2) as [f2 [Ns2 [s3 [H3 [HA3 [HNs2 [Hi3 Ht3]]]]]]].
+    exists (S (Nat.max f1 f2)), (Ns1 ++ Ns2), s3. split; [|split; [exact HA3|split; [|split]]].
+    + intros fu Hfu. destruct fu as [|fu]; [lia|]. rewrite tu_eq. unfold bind at 1. rewrite H1.
+      unfold bind at 1. rewrite (H2 fu) by lia. unfold bind at 1. rewrite (H3 fu) by lia. reflexivity.
+    + rewrite map_app. cbn [map snd]. apply (f_equal2 (@app (value unit)) HNs1 HNs2).
+    + clear - HS1s HR2 Hi3. unfold Ran, Same in *. repeat match goal with H: _ /\ _ |- _ => destruct H end. rewrite app_length. lia.
+    + clear - HS1s HR2 Ht3. unfold Ran, Same in *. repeat match goal with H: _ /\ _ |- _ => destruct H end. rewrite app_length. lia.
+Qed.
+
 Lemma parse_eq : forall fu, parse_tokens P fu =
   bind P (p_translation_unit P fu) (fun ext => bind P (peek P) (fun t =>
     match t with
@@ -383,6 +434,131 @@ Proof.
   - unfold mkN. cbn [strip map]. rewrite HNs. reflexivity.
   - exact Hi1.
   - exact Ht1.
+Qed.
+
+
+Theorem parse_run_g : forall eds, Forall (fun e => ExtS (fst e) (snd e)) eds ->
+  forall items le eof file, Spell le (concat (map fst eds)) -> UpR P [[]] items le -> length items = length le ->
+  exists f0 N s', (forall fu, f0 <= fu -> parse_tokens P fu (init_pstate P items eof file) = Ok (N, s')) /\
+    strip N = VNode C_FileAST [VList (map snd eds)] None /\
+    idx P s' = length le /\ N.to_nat (ticks P s') <= 3 * length le.
+Proof.
+  intros eds HF items le eof file HS HU Hlen.
+  set (s0 := init_pstate P items eof file).
+  assert (HE: UpEnd P s0 le).
+  { split; [apply (Up_initial P); [reflexivity|exact HU]|]. unfold tot, s0, init_pstate. cbn [idx after raw length]. lia. }
+  assert (HN: NoTD (scopes P s0)). { split; [discriminate|repeat constructor]. }
+  destruct (tu_run_g eds HF s0 le HS HE HN) as [f0 [Ns [s1 [H1 [HA1 [HNs [Hi1 Ht1]]]]]]].
+  exists f0, (mkN P C_FileAST [VList Ns] None), s1. split; [|split; [|split]].
+  - intros fu Hfu. rewrite parse_eq. unfold bind at 1. rewrite (H1 fu Hfu). unfold bind at 1. rewrite (peek_eof P s1 HA1). reflexivity.
+  - unfold mkN. cbn [strip map]. rewrite HNs. reflexivity.
+  - exact Hi1.
+  - exact Ht1.
+Qed.
+
+Lemma fn_ExtS : forall fd, fn_ok fd -> ExtS (fn_toks fd) (fn_emb fd).
+Proof.
+  intros fd Hfd. split; [exact (fn_toks_head fd Hfd)|]. destruct fd as [[ty f] items]. destruct Hfd as (Hne & Hty & Hit).
+  intros s le rest HS HU HN. exact (extdecl_fn ty f items Hne Hty Hit s le rest HS HU HN).
+Qed.
+
+(* ---- a file-scope object declaration `T x ;` / `T x = initializer ;` as an external declaration ---- *)
+Lemma extdecl_obj : forall ty x ki Xi, ty <> [] -> Forall (fun kv => kind_in (fst kv) tbl_TYPE_SPEC_SIMPLE = true) ty -> InitOK P ki Xi ->
+  ExtS (dtoks ty x ki) (dembed ty x Xi).
+Proof.
+  intros ty x ki Xi Hne HF HI. split.
+  { destruct ty as [|[k v] ty']; [congruence|]. unfold dtoks. cbn [app]. eexists; eexists; eexists; reflexivity. }
+  intros s le rest HS HU HN. unfold dtoks in HS.
+  destruct (RoundTrip.Spell_app_inv P _ _ _ HS) as [lty [l1 [-> [HSty HS1]]]].
+  destruct (RoundTrip.Spell_cons_inv P _ _ _ _ HS1) as [xt [l2 [-> [Hkx [Hvx HS2]]]]].
+  destruct (RoundTrip.Spell_app_inv P _ _ _ HS2) as [lki [l3 [-> [HSki HS3]]]].
+  destruct (RoundTrip.Spell_cons_inv P _ _ _ _ HS3) as [semi [l4 [-> [Hksemi [_ HS4]]]]]. apply (RoundTrip.Spell_nil_inv P) in HS4. subst l4.
+  rewrite <- app_assoc in HU. cbn [app] in HU. rewrite <- app_assoc in HU. cbn [app] in HU.
+  destruct ty as [|[k0 v0] ty']; [congruence|].
+  pose proof HSty as HSty0. destruct (RoundTrip.Spell_cons_inv P _ _ _ _ HSty) as [t0 [lty' [El [Hk0 [_ _]]]]].
+  pose proof (Forall_inv HF) as Hk0s. cbn [fst] in Hk0s. destruct (simple_kind_facts_x k0 Hk0s) as (E1 & E2 & E3 & E4 & E5).
+  rewrite El in HU. cbn [app] in HU.
+  destruct (peek_up P s t0 _ HU) as [sa [Ha [HUa HSa]]].
+  assert (Hns: kind_eqb (tk t0) K_SEMI = false) by (rewrite Hk0; exact E3).
+  destruct (accept_miss P sa t0 _ K_SEMI HUa Hns) as [sb [Hb [HUb HSb]]].
+  change (t0 :: lty' ++ xt :: lki ++ semi :: rest) with ((t0 :: lty') ++ xt :: lki ++ semi :: rest) in HUb. rewrite <- El in HUb.
+  destruct (spec_loop_run_d P _ HF (mkSS P None false false None) sb lty xt _ HSty0 HUb Hkx) as [f1 [ns [st' [s1 [H1 [HU1 [HR1 [Hns' [Hsp Hsaw]]]]]]]]].
+  cbn [map snd] in Hns'. inversion Hns' as [|n0 v0' ns' vs' [c0 En0] Hns'' E1']. subst.
+  cbn [ss_spec fold_left] in Hsp. unfold add_type at 2 in Hsp. cbn [spec_or_new] in Hsp. rewrite (fold_types P) in Hsp. cbn in Hsp.
+  cbn [ss_saw_type orb negb] in Hsaw.
+  destruct (scan_id P s1 xt _ HU1 Hkx) as [s2 [H2 [HU2 [Hi2 [Ht2 Hsc2]]]]].
+  (* the declarator `x`, then what follows it: `=` or `;` *)
+  assert (Hnext: exists n l', lki ++ semi :: rest = n :: l' /\ kind_eqb (tk n) K_LBRACKET = false /\ kind_eqb (tk n) K_LPAREN = false /\
+                 kind_eqb (tk n) K_LBRACE = false /\ kind_in (tk n) tbl_DECL_START = false).
+  { destruct HI as [[-> ->]|[kvs [-> _]]].
+    - apply (RoundTrip.Spell_nil_inv P) in HSki. subst lki. exists semi, rest. rewrite Hksemi. repeat split; reflexivity.
+    - destruct (RoundTrip.Spell_cons_inv P _ _ _ _ HSki) as [eqt [le' [-> [Hke _]]]]. exists eqt, (le' ++ semi :: rest). rewrite Hke. repeat split; reflexivity. }
+  destruct Hnext as [n [l' [En [Hn1 [Hn2 [Hn3 Hn4]]]]]]. rewrite En in HU2.
+  destruct (peek_kind_up P s2 xt _ HU2) as [s3 [H3 [HU3 HS3']]].
+  assert (Hnl: kind_eqb (tk xt) K_LPAREN = false) by (rewrite Hkx; reflexivity).
+  destruct (accept_miss P s3 xt _ K_LPAREN HU3 Hnl) as [s4 [H4 [HU4 HS4']]].
+  assert (Hid: kind_eqb (tk xt) K_ID = true) by (rewrite Hkx; reflexivity).
+  destruct (expect_up P s4 xt _ K_ID HU4 Hid) as [s5 [H5 [HU5 HA5]]].
+  destruct (peek_kind_up P s5 n _ HU5) as [s6 [H6 [HU6 HS6']]].
+  destruct (peek_kind_up P s6 n _ HU6) as [s7 [H7 [HU7 HS7']]].
+  destruct (peek_kind_up P s7 n _ HU7) as [s8 [H8 [HU8 HS8']]].
+  rewrite <- En in HU8.
+  set (c := mkCoord P (curfile P s5) (tp xt)).
+  (* the initializer, if any *)
+  assert (Hinit: exists fi I s9, (forall fu, fi <= fu ->
+              bind P (accept P K_EQUALS) (fun eq => bind P (match eq with Some _ => p_initializer P fu | None => ret P VNone end) (fun init => ret P init)) s8 = Ok (I, s9)) /\
+            Up s9 (semi :: rest) /\ strip I = Xi /\ Ran P s8 s9 (length lki)).
+  { destruct HI as [[-> ->]|[kvs [-> [HA Hfo]]]].
+    - apply (RoundTrip.Spell_nil_inv P) in HSki. subst lki. cbn [app] in HU8.
+      assert (Hne': kind_eqb (tk semi) K_EQUALS = false) by (rewrite Hksemi; reflexivity).
+      destruct (accept_miss P s8 semi rest K_EQUALS HU8 Hne') as [s9 [H9 [HU9 HS9]]].
+      exists 0, VNone, s9. split; [|split; [exact HU9|split; [reflexivity|cost_tac]]].
+      intros fu _. unfold bind at 1. rewrite H9. reflexivity.
+    - destruct (RoundTrip.Spell_cons_inv P _ _ _ _ HSki) as [eqt [le' [-> [Hke [_ HS']]]]]. cbn [app] in HU8.
+      assert (Hee: kind_eqb (tk eqt) K_EQUALS = true) by (rewrite Hke; reflexivity).
+      destruct (accept_hit P s8 eqt _ K_EQUALS HU8 Hee) as [s9 [H9 [HU9 HA9]]].
+      destruct Hfo as [k1 [v1 [rest1 [Ek1 [_ [Hnb _]]]]]].
+      pose proof HS' as HS0. rewrite Ek1 in HS'. destruct (RoundTrip.Spell_cons_inv P _ _ _ _ HS') as [t1 [tl1 [El1 [Hk1 [_ _]]]]].
+      assert (Hnb': kind_eqb (tk t1) K_LBRACE = false) by (rewrite Hk1; exact Hnb).
+      rewrite El1 in HU9. cbn [app] in HU9.
+      destruct (accept_miss P s9 t1 _ K_LBRACE HU9 Hnb') as [s10 [H10 [HU10 HS10]]].
+      change (t1 :: tl1 ++ semi :: rest) with ((t1 :: tl1) ++ semi :: rest) in HU10. rewrite <- El1 in HU10.
+      assert (Hast: astop (tk semi) = true) by (rewrite Hksemi; reflexivity).
+      destruct (HA s10 le' semi rest HS0 HU10 Hast) as [fa [I [s11 [H11 [HU11 [HI11 HR11]]]]]].
+      exists (S fa), I, s11. split; [|split; [exact HU11|split; [exact HI11|cost_tac]]].
+      intros fu Hfu. destruct fu as [|fu]; [lia|]. unfold bind at 1. rewrite H9. unfold bind at 1. rewrite (initializer_eq P). unfold bind at 1. rewrite H10.
+      rewrite (H11 fu) by lia. reflexivity. }
+  destruct Hinit as [fi [I [s9 [H9 [HU9 [HI9 HR9]]]]]].
+  assert (Hnc: kind_eqb (tk semi) K_COMMA = false) by (rewrite Hksemi; reflexivity).
+  destruct (accept_miss P s9 semi rest K_COMMA HU9 Hnc) as [s10 [H10 [HU10 HS10]]].
+  assert (HN10: NoTD (scopes P s10)).
+  { clear - HN HSa HSb HR1 Hsc2 HS3' HS4' HA5 HS6' HS7' HS8' HR9 HS10. unfold Ran, Same, Adv, SC in *. tauto. }
+  destruct (build_decl_td P (tv xt) c I (mkIdType P [v0] (Some c0)) ns' v0 (map snd ty') c0 s10 _ eq_refl Hns'' HN10 HU10) as [s11 [H11 [HU11 [HS11 HN11]]]].
+  assert (Hsm: kind_eqb (tk semi) K_SEMI = true) by (rewrite Hksemi; reflexivity).
+  destruct (expect_up P s11 semi _ K_SEMI HU11 Hsm) as [s12 [H12 [HU12 HA12]]].
+  exists (4 + Nat.max f1 (Nat.max fi 8)), [decl1 P (tv xt) c I (map (fun v => VStr v) (v0 :: map snd ty')) c0], s12.
+  split; [|split; [exact HU12|split; [|cost_tac]]].
+  - intros fu Hfu. do 4 (destruct fu as [|fu]; [lia|]). rewrite extdecl_eq. unfold bind at 1. rewrite Ha. cbv zeta. rewrite E1, E2.
+    unfold bind at 1. rewrite Hb. rewrite E4, E5. cbn [negb].
+    unfold bind at 1. rewrite (declspec_eq P). unfold bind at 1. rewrite (H1 (S (S fu))) by lia.
+    rewrite Hsp, Hsaw. cbn [negb andb]. unfold ret at 1. cbv iota beta.
+    unfold bind at 1. rewrite (H2 (S (S (S fu)))) by lia. cbn [fst okind_is]. change (kind_eqb K_ID K_ID) with true. cbn [negb].
+    unfold bind at 1. rewrite (declarator_kind_eq P). unfold bind at 1. rewrite H3. rewrite Hkx. change (okind_is (Some K_ID) K_TIMES) with false. cbv iota.
+    unfold bind at 1. unfold ret at 1. unfold bind at 1. rewrite (direct_declarator_eq P). unfold bind at 1. rewrite H4.
+    unfold bind at 1. unfold bind at 1. rewrite H5. unfold bind at 1. rewrite (TypeName.tcoord_eq P). unfold ret at 1. fold c.
+    rewrite (decl_suffixes_eq P). unfold bind at 1. rewrite H6. cbn [okind_is]. rewrite Hn1, Hn2. unfold ret at 1. unfold ret at 1.
+    unfold bind at 1. rewrite H7. unfold bind at 1. unfold starts_declaration. unfold bind at 1. rewrite H8. unfold ret at 1. cbn [okind_in okind_is]. rewrite Hn3, Hn4. cbn [orb].
+    pose proof (H9 (S (S (S fu))) ltac:(lia)) as H9'. unfold bind at 1 in H9'.
+    destruct (accept P K_EQUALS s8) as [[eq s8']| | |] eqn:Eacc; try discriminate H9'.
+    unfold bind at 1 in H9'.
+    destruct ((match eq with Some _ => p_initializer P (S (S (S fu))) | None => ret P VNone end) s8') as [[init s8'']| | |] eqn:Einit; try discriminate H9'.
+    unfold ret in H9'. injection H9' as -> ->.
+    unfold bind at 1. rewrite Eacc. unfold bind at 1. rewrite Einit.
+    unfold bind at 1. rewrite (idl_eq P). unfold bind at 1. unfold ret at 1. unfold bind at 1. rewrite (idm_eq P). unfold bind at 1. rewrite H10. unfold ret at 1. unfold ret at 1.
+    change (mkSpec P [] [] (mkIdType P [v0] (Some c0) :: ns') [] []) with (spec_of P (mkIdType P [v0] (Some c0) :: ns')).
+    change (mkTypeDecl P (VStr (tv xt)) VNone VNone VNone (Some c)) with (td_of P (tv xt) c).
+    unfold bind at 1. rewrite H11. unfold bind at 1. rewrite H12. reflexivity.
+  - unfold decl1, dembed. cbn [map strip snd]. rewrite (strip_strs P). rewrite HI9. reflexivity.
 Qed.
 
 End FT.
@@ -450,5 +626,84 @@ Proof.
   split; [repeat constructor; try discriminate; cbn; repeat split; solve [reflexivity | discriminate | repeat constructor]|].
   split; [vm_compute; reflexivity|]. split; [|split; [vm_compute; reflexivity|vm_compute; repeat split; lia]].
   unfold ex_prog_items, ex_prog_toks. vm_compute prog_toks. cbn [map fst snd].
+  repeat (eapply UpR_cons; [vm_compute; reflexivity|]). apply UpR_nil.
+Qed.
+
+(* ---- translation units that mix file-scope object declarations and function definitions ---- *)
+Inductive edecl :=
+| EFun (ty: list (kind * str)) (f: str) (items: list st)
+| EObj (ty: list (kind * str)) (x: str) (i: option ex).
+
+Section Unit.
+Variable P : Type.
+Variable rp : bool.
+Definition ewf (d: edecl) : Prop :=
+  match d with
+  | EFun ty f items => fwf (ty, f, items)
+  | EObj ty x i => ty <> [] /\ Forall (fun kv => kind_in (fst kv) tbl_TYPE_SPEC_SIMPLE = true) ty /\ owf i
+  end.
+Definition etoks (d: edecl) : list (kind * str) :=
+  match d with
+  | EFun ty f items => fn_toks (fd_items rp (ty, f, items))
+  | EObj ty x i => dtoks ty x (match i with Some e => (K_EQUALS, s2l "=") :: argt rp e | None => [] end)
+  end.
+Definition eemb (d: edecl) : value unit :=
+  match d with
+  | EFun ty f items => fn_emb (fd_items rp (ty, f, items))
+  | EObj ty x i => dembed ty x (oemb i)
+  end.
+Definition unit_toks (u: list edecl) : list (kind * str) := concat (map etoks u).
+Definition unit_emb (u: list edecl) : value unit := VNode C_FileAST [VList (map eemb u)] None.
+
+Lemma ewf_ExtS : forall d, ewf d -> ExtS P (etoks d) (eemb d).
+Proof.
+  intros [ty f items|ty x i] Hw; cbn [ewf etoks eemb] in *.
+  - apply fn_ExtS. apply (fwf_ok P rp). exact Hw.
+  - destruct Hw as (Hne & Hty & Hi). apply extdecl_obj; [exact Hne|exact Hty|].
+    destruct i as [e|]; [|left; split; reflexivity]. right. cbn [owf] in Hi. pose proof (T_all P rp (size e) e (le_n _) Hi) as HT.
+    exists (argt rp e). split; [reflexivity|]. split; [exact (T_asg_argt P rp e HT)|exact (T_first_argt P rp e HT)].
+Qed.
+
+(* parse(): every translation unit made of object declarations `T x;` / `T x = e;` and function definitions `T f ( ) { ... }`, in any
+   order and number, followed by the end of the input, is parsed from the initial state to exactly its FileAST - one Decl / FuncDef per
+   external declaration, in source order - consuming every token with at most three next() calls per token. *)
+Theorem parse_of_generated_unit : forall u, Forall ewf u ->
+  forall items le eof file, RoundTrip.Spell P le (unit_toks u) -> StreamLib.UpR P [[]] items le -> length items = length le ->
+  exists f0 N s', (forall fu, f0 <= fu -> parse_tokens P fu (init_pstate P items eof file) = Ok (N, s')) /\
+    strip N = unit_emb u /\ idx P s' = length le /\ N.to_nat (ticks P s') <= 3 * length le.
+Proof.
+  intros u Hu items le eof file HS HU Hlen.
+  assert (HF: Forall (fun e => ExtS P (fst e) (snd e)) (map (fun d => (etoks d, eemb d)) u)).
+  { apply Forall_forall. intros x Hx. apply in_map_iff in Hx. destruct Hx as [d [<- Hd]]. cbn [fst snd]. apply ewf_ExtS. exact (proj1 (Forall_forall _ _) Hu d Hd). }
+  assert (E1: map fst (map (fun d => (etoks d, eemb d)) u) = map etoks u) by (rewrite map_map; reflexivity).
+  assert (E2: map snd (map (fun d => (etoks d, eemb d)) u) = map eemb u) by (rewrite map_map; reflexivity).
+  unfold unit_toks in HS. rewrite <- E1 in HS.
+  destruct (parse_run_g P _ HF items le eof file HS HU Hlen) as [f0 [N [s' [H [HN [Hi Ht]]]]]].
+  exists f0, N, s'. split; [exact H|split; [|split; assumption]]. rewrite HN, E2. reflexivity.
+Qed.
+End Unit.
+
+(* `int counter = 0 ; unsigned long limit ; int next ( ) { counter = counter + 1 ; return counter ; } char flag = ( counter , 1 ) ; void g ( ) { }` *)
+Definition ex_unit : list edecl :=
+  [EObj [(K_INT, s2l "int")] (s2l "counter") (Some (XConst K_INT_CONST_DEC (s2l "0") (s2l "int")));
+   EObj [(K_UNSIGNED, s2l "unsigned"); (K_LONG, s2l "long")] (s2l "limit") None;
+   EFun [(K_INT, s2l "int")] (s2l "next")
+     [SExpr (XAsg (s2l "=") (XId (s2l "counter")) (XBin (s2l "+") (XId (s2l "counter")) (XConst K_INT_CONST_DEC (s2l "1") (s2l "int"))));
+      SReturn (Some (XId (s2l "counter")))];
+   EObj [(K_CHAR, s2l "char")] (s2l "flag") (Some (XComma [XId (s2l "counter"); XConst K_INT_CONST_DEC (s2l "1") (s2l "int")]));
+   EFun [(K_VOID, s2l "void")] (s2l "g") []].
+Definition ex_unit_items : list (ParserBase.pitem nat) := map (fun kv => ParserBase.PTok nat (fst kv) (snd kv) 0 0) (unit_toks false ex_unit).
+Definition ex_unit_toks : list (ParserBase.tok nat) := map (fun kv => mkTok nat (fst kv) (snd kv) 0) (unit_toks false ex_unit).
+Example unit_example :
+  Forall ewf ex_unit /\ RoundTrip.Spell nat ex_unit_toks (unit_toks false ex_unit) /\
+  StreamLib.UpR nat [[]] ex_unit_items ex_unit_toks /\ length ex_unit_items = length ex_unit_toks /\
+  match parse_tokens nat 200 (init_pstate nat ex_unit_items 0 0) with
+  | Ok (N, s') => strip N = unit_emb false ex_unit /\ idx nat s' = length ex_unit_toks /\ (N.to_nat (ticks nat s') <= 3 * length ex_unit_toks)%nat
+  | _ => False
+  end.
+Proof.
+  split; [repeat constructor; try discriminate; cbn; repeat split; solve [reflexivity | discriminate | repeat constructor]|].
+  split; [vm_compute; reflexivity|]. split; [|split; [vm_compute; reflexivity|vm_compute; repeat split; lia]].
+  unfold ex_unit_items, ex_unit_toks. vm_compute unit_toks. cbn [map fst snd].
   repeat (eapply UpR_cons; [vm_compute; reflexivity|]). apply UpR_nil.
 Qed.
